@@ -64,6 +64,10 @@ class InitMethod(MethodDescriptor):
                             # Attributes that opted out of initialization are
                             # not arguments of the parent constructor either.
                             continue
+                        if attr == instance_metadata.init_overflow_attr:
+                            # A keyword named like the overflow attribute is
+                            # overflow content (handled below), not its value.
+                            continue
                         if attr in kwargs:
                             parent_kwargs[attr] = kwargs.pop(attr)
                             if not instance_attr_spec.do_not_copy:
